@@ -2,6 +2,8 @@
 reference model.  Used by C01, C02, C03, C05, C06, C07, C10, C11, C13."""
 from __future__ import annotations
 
+import itertools
+
 import numpy as np
 
 from mc import family, refmodel
@@ -225,3 +227,60 @@ def structural_zeros(fv, params):
     params["shocks"] = dict(params["shocks"])
     params["shocks"]["h"] = jnp.asarray(a)
     return params
+
+
+def near_tie_agents(r, Vfull, rel_gap=3e-6, max_agents=4):
+    """Agents that are NEARLY (relative gap ~3e-6, far above rounding noise, far below 1e-5) indifferent between
+    two values of the restricted discrete choice `d` in period 0: off-grid wealth found by bisection on the
+    REFERENCE objective.  Returns a dict state -> array (possibly empty)."""
+    if "w" not in r.cont_states or r.kind["w"] != "LinspaceGrid" or "d" not in r.choices or "d" not in r.restricted:
+        return {}
+    Vn = Vfull[1] if r.T > 1 else None
+    di = r.choices.index("d")
+    others = [s for s in r.states if s != "w"]
+    in0 = r.in_space(0)
+    found = []
+
+    def gap(w, fixed):
+        rows = {s: np.array([fixed[s]]) for s in others}
+        rows["w"] = np.array([w])
+        q, feas = r.row_objective(rows, 0, Vn)
+        qq = np.where(feas, q, -np.inf)[0]
+        qq = np.moveaxis(qq, di, 0).reshape(len(r.grids["d"]), -1).max(axis=1)
+        with np.errstate(invalid="ignore"):
+            return qq[0] - qq[1], max(abs(qq[0]), abs(qq[1]))
+
+    g = r.grids["w"]
+    combos = list(itertools.product(*[range(len(r.grids[s])) for s in others]))
+    for combo in combos:
+        fixed = {s: r.grids[s][k] for s, k in zip(others, combo)}
+        idx = tuple(combo[others.index(s)] if s != "w" else 0 for s in r.states)
+        if not in0[idx]:
+            continue
+        for a, b in zip(g[:-1], g[1:]):
+            ga, _ = gap(a, fixed)
+            gb, _ = gap(b, fixed)
+            if not (np.isfinite(ga) and np.isfinite(gb)) or ga * gb >= 0:
+                continue
+            for sign in (+1.0, -1.0):
+                lo, hi = a, b
+                flo = ga
+                for _ in range(60):
+                    mid = 0.5 * (lo + hi)
+                    gm, sc = gap(mid, fixed)
+                    target = sign * rel_gap * (1 + sc)
+                    if (gm - target) * (flo - target) > 0:
+                        lo, flo = mid, gm
+                    else:
+                        hi = mid
+                w_star = 0.5 * (lo + hi)
+                gm, sc = gap(w_star, fixed)
+                if np.isfinite(gm) and 0.3 * rel_gap * (1 + sc) < abs(gm) < 3 * rel_gap * (1 + sc):
+                    found.append({**fixed, "w": w_star})
+            if len(found) >= max_agents:
+                break
+        if len(found) >= max_agents:
+            break
+    if not found:
+        return {}
+    return {s: np.array([f[s] for f in found]) for s in r.states}
